@@ -126,7 +126,7 @@ def lean_input(case):
     if case.get("kind", "require") == "require" and "_ARGS" not in params and "_KWARGS" not in params and "tick(" not in case["expr"] \
             and not any(isinstance(v, str) and v.isupper() for v in case["env"].values()):
         env, names = names_of(case)
-        out = exprtie.to_lean(case["expr"], names, objs)
+        out = exprtie.to_lean(case["expr"], names, objs, lookups=[env, dict(CLOSURE), dict(GLOB)])
         if out is not None:
             kw = []
             for k in sorted(env.keys()):
